@@ -225,6 +225,32 @@ def run(chk):
     relocrules.target_pair(chk, emitters)
     relocrules.payload_live(chk, emitters)
     relocrules.src_address(chk, rb, floor=1)
+    relocrules.target_section_used(chk, rb)
+    fbl = chk.facts(UNIT, funcs=r"asmjit::CodeHolder::bind_label$")
+    relocrules.bind_label_sections(chk, cfg.find_fn(fbl, "CodeHolder::bind_label"))
+
+    # ---------------------------------------------------------------- the JIT runtime relocates for the address the code runs at
+    R9 = "R-RELOC-BASE-RX"
+    chk.rule(R9, "JitRuntime::_add: the base address handed to relocate_to_base() is the span's executable view (rx), and the bytes are copied "
+                 "through the writable view (rw): with dual mapping the two differ, and absolute references must be computed for where the code executes")
+    fjr = chk.facts("asmjit/core/jitruntime.cpp", funcs=r"asmjit::JitRuntime::_add$")
+    jr = cfg.find_fn(fjr, "JitRuntime::_add")
+    rcalls = [(i, x) for i, x in jr.calls(lambda x: x.get("cn") == "relocate_to_base" and x.get("args"))]
+    chk.need(len(rcalls) >= 1, "JitRuntime::_add no longer calls relocate_to_base")
+    for k, (i, x) in enumerate(rcalls):
+        views = {jr.e(j).get("cn") for j in jr.walk(x["args"][0]) if jr.e(j)["k"] == "mcall" and jr.e(j).get("cn") in ("rx", "rw")}
+        # a local initialised from span.rx() is fine as well
+        for j in jr.walk(x["args"][0]):
+            y = jr.e(j)
+            if y["k"] == "ref" and y.get("dk") == "local":
+                for d in jr.ex.values():
+                    if d["k"] == "decl":
+                        for v in d["vars"]:
+                            if v["did"] == y.get("did") and v.get("init"):
+                                views |= {jr.e(q).get("cn") for q in jr.walk(v["init"]) if jr.e(q)["k"] == "mcall" and jr.e(q).get("cn") in ("rx", "rw")}
+        chk.ob(R9, "JitRuntime::_add|relocate_to_base#%d" % k, views == {"rx"}, loc=jr.loc(i),
+               detail="relocate_to_base() is given a base derived from %s: the code executes at span.rx()" % (sorted(views) or "neither view"),
+               key="relocbase|%d" % k)
 
     return chk.finish(
         level="other",
